@@ -1,4 +1,6 @@
 import NavisModel.Proofs.ConnLemmas
+import NavisModel.Proofs.ConnViewsLemmas
+import NavisModel.Gen.Conn
 /-!
 # C20 — connectivity built from connector tables is exact and self-consistent
 
@@ -85,6 +87,42 @@ theorem conn_outputs_all (rows : List CRow) (c : Int) :
     dget (build rows).outputs c
       = if postRows rows c = [] then none else some ((postRows rows c).map fun p => (p.name, p.node)) :=
   outputs_all rows c
+
+/-- **edges_spec_all_inputs** (no guard).  For *every* list of connector rows — connector ids presynaptic on several
+rows, several neurons, the same neuron object added twice included — the edge stream navis produces is, as a multiset,
+the relational join of the table in which every connector keeps only its **last** presynaptic row (in visiting order);
+that table satisfies the guard, and it is the table itself when the guard already holds. So `edges_spec` is the special
+case `lastPreOnly rows = rows`, and outside the guard exactly the edges of the earlier presynaptic rows are lost. -/
+theorem edges_spec_all_inputs (io : Bool) (rows : List CRow) :
+    (edges (build rows) io).Perm (specEdges io (lastPreOnly rows))
+    ∧ PreUnique (lastPreOnly rows)
+    ∧ (PreUnique rows → lastPreOnly rows = rows) :=
+  ⟨edges_perm_spec_all io rows, preUnique_lastPreOnly rows, lastPreOnly_of_preUnique rows⟩
+
+/-- Multiplicity for all inputs: the known edge `A → B` through `c` occurs (1 if the last presynaptic row of `c` is
+`(A, a)`, else 0) × (#rows `(B, c, b, post)`) times — a connector contacting the same target node `k` times yields `k`
+parallel edges, whatever else is wrong with the tables. -/
+theorem edge_multiplicity_all_inputs (io : Bool) (rows : List CRow) (c a b : Int) (A B : String) :
+    (edges (build rows) io).count ⟨c, A, B, some a, some b⟩
+      = (lastPreOnly rows).count ⟨A, c, a, 0⟩ * rows.count ⟨B, c, b, 1⟩ := by
+  rw [(edges_perm_spec_all io rows).count_eq, count_specEdges_known]
+  congr 1
+  rw [List.count_eq_countP, List.count_eq_countP]
+  have h1 : (lastPreOnly rows).countP (· == (⟨B, c, b, 1⟩ : CRow)) = ((postRows (lastPreOnly rows) c)).countP (· == (⟨B, c, b, 1⟩ : CRow)) := by
+    unfold postRows; rw [List.countP_filter]
+    apply List.countP_congr; intro q _
+    constructor
+    · intro hq; have : q = ⟨B, c, b, 1⟩ := by simpa using hq
+      subst this; simp [isPost]
+    · intro hq; simp only [Bool.and_eq_true] at hq; exact hq.1
+  have h2 : rows.countP (· == (⟨B, c, b, 1⟩ : CRow)) = ((postRows rows c)).countP (· == (⟨B, c, b, 1⟩ : CRow)) := by
+    unfold postRows; rw [List.countP_filter]
+    apply List.countP_congr; intro q _
+    constructor
+    · intro hq; have : q = ⟨B, c, b, 1⟩ := by simpa using hq
+      subst this; simp [isPost]
+    · intro hq; simp only [Bool.and_eq_true] at hq; exact hq.1
+  rw [h1, h2, postRows_lastPreOnly]
 
 /-- connector 5 is presynaptic on `A` (node 1) and on `B` (node 2) and postsynaptic on `C` (node 3) -/
 def witnessRows : List CRow := [⟨"A", 5, 1, 0⟩, ⟨"B", 5, 2, 0⟩, ⟨"C", 5, 3, 1⟩]
@@ -203,5 +241,313 @@ example : (groupMatrix .sum (.byNeuron [("a", "g"), ("b", "g")]) (.byGroup [("h"
 example : total (groupMatrix .sum (.byNeuron [("a", "g"), ("b", "g")]) (.byNeuron []) true sampleMat) = 15 := by decide +kernel
 example : (groupMatrix .avg (.byNeuron [("a", "g"), ("b", "g")]) (.byNeuron []) false sampleMat).val "g" "c" = 7 / 2 := by
   decide +kernel
+
+/-! ## 6. the model's hard-wired facts are what the *current* source says (`Gen/Conn.lean`, regenerated per run)
+
+Each theorem below is over definitions the translator re-extracts from `navis/connectivity/adjacency.py`,
+`matrix_utils.py` and `graph/converters.py`; an edit of the corresponding literal / expression makes it stop
+checking. -/
+
+/-- the name of the unknown partner -/
+theorem gen_other : Gen.Conn.other = OTHER := rfl
+
+/-- **The type chain of `add_neuron`, interpreted, is the model's `addRow`**: which literal makes a row post- /
+presynaptic, which dict is written and how (`setdefault(..).append` keeps every row, plain assignment keeps the
+last), in which order the tests run, and that no other value writes anything. -/
+theorem gen_type_chain (m : Maps) (r : CRow) : addRowGen Gen.Conn.typeBranches m r = some (addRow m r) := by
+  unfold Gen.Conn.typeBranches      -- the proof script does not depend on the order of the (disjoint) branches
+  by_cases h1 : r.type = 1 <;> by_cases h0 : r.type = 0 <;> simp_all [addRowGen, applyBranch, addRow]
+
+/-- the columns / attributes `add_neuron` reads: key of the graph node, key and value of the two dicts -/
+theorem gen_row_fields :
+    Gen.Conn.neuronKey = "name" ∧ Gen.Conn.noneGuard = true ∧ Gen.Conn.typeColumn = "type"
+    ∧ Gen.Conn.keyColumn = "connector_id" ∧ Gen.Conn.valueFields = ["name", "node_id"] :=
+  ⟨rfl, rfl, rfl, rfl, rfl⟩
+
+/-- the join in `edges()`: keys of both dicts, defaults `(OTHER, None)` / `[(OTHER, None)]`, the source test on the
+outer level and the target test on the inner level both say "this partner is unknown" (`… is None` on the node, or
+identity with `OTHER` — never truthiness of a node id) together with "not requested"; the tuple is yielded in `Edge`
+field order. -/
+theorem gen_edges_join :
+    Gen.Conn.keySources = ["conn_inputs", "conn_outputs"] ∧ (∀ o ∈ Gen.Conn.keyOps, o ∈ ["union", "BitOr", "keys"])
+    ∧ Gen.Conn.srcDict = "conn_inputs" ∧ Gen.Conn.srcDefault = ["OTHER", "None"]
+    ∧ Gen.Conn.srcSkip = ["NOT_REQUESTED", "UNKNOWN(SRC)"]
+    ∧ Gen.Conn.tgtDict = "conn_outputs" ∧ Gen.Conn.tgtDefault = ["OTHER", "None"]
+    ∧ Gen.Conn.tgtSkip = ["NOT_REQUESTED", "UNKNOWN(TGT)"]
+    ∧ Gen.Conn.yieldArgs = ["CID", "SRC", "TGT", "SRC_NODE", "TGT_NODE"]
+    ∧ Gen.Conn.edgeFields = ["connector_id", "source_name", "target_name", "source_node", "target_node"] :=
+  ⟨rfl, by decide, rfl, rfl, rfl, rfl, rfl, rfl, rfl, rfl⟩
+
+/-- every view defaults to `include_other=True`, forwards its own `include_other` to `edges()`, and adds the
+`__OTHER__` node exactly under `if include_other:` -/
+theorem gen_include_other :
+    Gen.Conn.edgesDefaultIncludeOther = true
+    ∧ (Gen.Conn.adjDefaultIncludeOther = true ∧ Gen.Conn.adjForwardsIncludeOther = true ∧ Gen.Conn.adjOtherGuard = "include_other")
+    ∧ (Gen.Conn.dgDefaultIncludeOther = true ∧ Gen.Conn.dgForwardsIncludeOther = true ∧ Gen.Conn.dgOtherGuard = "include_other")
+    ∧ (Gen.Conn.mgDefaultIncludeOther = true ∧ Gen.Conn.mgForwardsIncludeOther = true ∧ Gen.Conn.mgOtherGuard = "include_other") :=
+  ⟨rfl, ⟨rfl, rfl, rfl⟩, ⟨rfl, rfl, rfl⟩, ⟨rfl, rfl, rfl⟩⟩
+
+/-- `to_adjacency`: index = the neuron dict's keys, the cell `(src, tgt)` = tuple positions 1, 2 is incremented
+by exactly 1 per edge, in a 64-bit integer matrix -/
+theorem gen_adjacency_cells :
+    Gen.Conn.adjIndexAttrs = ["neurons"] ∧ Gen.Conn.adjCellPos = [1, 2] ∧ Gen.Conn.adjOp = "Add"
+    ∧ Gen.Conn.adjIncrement = 1 ∧ Gen.Conn.adjDtype ∈ ["uint64", "int64"] :=
+  ⟨rfl, rfl, rfl, rfl, by decide⟩
+
+/-- `to_digraph`: grouped by `(src, tgt)`, one table row `[connector_id, pre_node, post_node]` per edge,
+`weight` = number of rows (no de-duplication on the way) -/
+theorem gen_digraph_rows :
+    Gen.Conn.dgKeyPos = [1, 2] ∧ Gen.Conn.dgRowPos = [0, 3, 4]
+    ∧ Gen.Conn.dgHeaders = ["connector_id", "pre_node", "post_node"] ∧ Gen.Conn.dgWeight = "len(rows)"
+    ∧ "weight" ∈ Gen.Conn.dgEdgeAttrs ∧ "connectors" ∈ Gen.Conn.dgEdgeAttrs :=
+  ⟨rfl, rfl, rfl, rfl, by decide, by decide⟩
+
+/-- `to_multidigraph`: one `add_edge(src, tgt, …)` per edge carrying connector id, pre and post node from the right
+tuple positions, and **no `key=`** (a key would merge parallel edges of one connector) -/
+theorem gen_multigraph_edges :
+    Gen.Conn.mgEndpointPos = [1, 2] ∧ ("connector_id", 0) ∈ Gen.Conn.mgAttrs ∧ ("pre_node", 3) ∈ Gen.Conn.mgAttrs
+    ∧ ("post_node", 4) ∈ Gen.Conn.mgAttrs ∧ ∀ a ∈ Gen.Conn.mgAttrs, a.1 ≠ "key" := by
+  refine ⟨rfl, by decide, by decide, by decide, by decide⟩
+
+/-- `group_matrix`: every permissible method has a branch on both axes and the pandas aggregation called there is
+the one the model's `agg` implements for that method; the defaults are `SUM` / keep ungrouped. -/
+theorem gen_group_methods :
+    (∀ m ∈ Gen.Conn.gmMethods, (methodOfName m).isSome ∧ m ∈ Gen.Conn.gmRowAgg.map (·.1) ∧ m ∈ Gen.Conn.gmColAgg.map (·.1))
+    ∧ (∀ p ∈ Gen.Conn.gmRowAgg ++ Gen.Conn.gmColAgg, (methodOfName p.1).isSome ∧ aggOfPandas p.2 = methodOfName p.1)
+    ∧ methodOfName Gen.Conn.gmDefaultMethod = some .sum ∧ Gen.Conn.gmDefaultDrop = false := by
+  refine ⟨by decide, by decide, rfl, rfl⟩
+
+/-- `group_matrix`: ungrouped labels keep their own label (`groups.get(s, s)`), `drop_ungrouped` keeps the labels
+that are keys of the grouping, rows are grouped before columns, the column branch transposes there and back, labels
+and both sides of the dicts go through `str`, the dict format is detected on the first value, the input is copied. -/
+theorem gen_group_shape :
+    Gen.Conn.gmRowLabel = "get(label, label)" ∧ Gen.Conn.gmColLabel = "get(label, label)"
+    ∧ Gen.Conn.gmRowDrop = "keep index.isin(keys)" ∧ Gen.Conn.gmColDrop = "keep index.isin(keys)"
+    ∧ Gen.Conn.gmOrder = ["rows", "cols"] ∧ Gen.Conn.gmRowTransposes = 0 ∧ Gen.Conn.gmColTransposes = 2
+    ∧ Gen.Conn.gmStrConversions = ["dict:col_groups", "dict:row_groups", "labels:columns", "labels:index"]
+    ∧ Gen.Conn.gmCopies = true
+    ∧ Gen.Conn.gmFormats = [("col_groups", "first value is iterable", "member -> group, later groups win"),
+                            ("row_groups", "first value is iterable", "member -> group, later groups win")] :=
+  ⟨rfl, rfl, rfl, rfl, rfl, rfl, rfl, rfl, rfl, rfl⟩
+
+/-- `network2nx`: an adjacency frame is melted into (source, target, weight) rows, `threshold` keeps `weight >= threshold` -/
+theorem gen_network2nx :
+    Gen.Conn.nxThresholdOp = "GtE" ∧ Gen.Conn.nxThresholdColumn = 2 ∧ Gen.Conn.nxMelts = true
+    ∧ Gen.Conn.nxBuilder = ["add_weighted_edges_from"] ∧ Gen.Conn.nxEdgeColumns = ["source", "target", "weight"] :=
+  ⟨rfl, rfl, rfl, rfl, rfl⟩
+
+/-! ## 7. which values of the `type` column count (Python `==` against the int literals) -/
+
+/-- For every Python value of the `type` cell, `add_neuron`'s loop body is the model's `addRow` on the value's code:
+ints / numpy ints, floats and bools equal to `1` (`0`) by value are postsynaptic (presynaptic); strings — including
+`"pre"`, `"post"`, `"0"`, `"1"` —, `None` and `NaN` are ignored. -/
+theorem type_values_by_python_equality (m : Maps) (r : TRow) : addRowT m r = addRow m r.toCRow := addRowT_eq m r
+
+theorem type_codes :
+    (∀ i : Int, typeCode (.int i) = if i = 1 then 1 else if i = 0 then 0 else 2)
+    ∧ typeCode (.bool true) = 1 ∧ typeCode (.bool false) = 0
+    ∧ typeCode (.float 1) = 1 ∧ typeCode (.float 0) = 0 ∧ typeCode (.float (1 / 2)) = 2
+    ∧ (∀ s, typeCode (.str s) = 2) ∧ typeCode .nan = 2 ∧ typeCode .none = 2 := by
+  refine ⟨?_, by decide, by decide, by decide, by decide, by decide +kernel, fun _ => rfl, rfl, rfl⟩
+  intro i
+  unfold typeCode TVal.eqInt
+  by_cases h1 : i = 1
+  · simp [h1]
+  · by_cases h0 : i = 0 <;> simp [h1, h0]
+
+/-- whole tables: folding the as-written loop body over Python-valued rows is `build` of the coded rows -/
+theorem build_typed_rows (rows : List TRow) : rows.foldl addRowT {} = build (rows.map TRow.toCRow) :=
+  foldl_addRowT rows {}
+
+/-! ## 8. incremental construction: `add_neuron` one by one, `add_neurons`, the constructor -/
+
+/-- However the neurons arrive (constructor, `add_neurons`, repeated `add_neuron`, in several batches), the state
+after all of them is the one-shot `build` of all rows in visiting order, and the node set is the list of distinct
+names in first-insertion order. -/
+theorem incremental_build (ns : List Neuron) :
+    (buildN ns).maps = build (flatRows ns) ∧ (buildN ns).names = neuronNames ns :=
+  ⟨buildN_build ns, buildN_names ns⟩
+
+theorem incremental_batches (a b : List Neuron) : buildN (a ++ b) = buildN b (buildN a) := by
+  unfold buildN; exact List.foldl_append
+
+/-! ## 9. `to_adjacency` as written, node sets, totals -/
+
+/-- **The dense matrix navis builds** (`zeros` over `index`, then `df.loc[src, tgt] += 1` per edge) has, in row `s` and
+column `t`, the number of stream edges `s → t` — for every index list (duplicates and absent labels included). -/
+theorem adjacency_as_written (names : List String) (io : Bool) (es : List Edge) :
+    adjDense (index names io) es = adjacency names io es := by
+  rw [adjDense_eq]; rfl
+
+/-- every endpoint of every edge is a node of the graphs / a label of the matrix (no guard), so `df.loc[src, tgt]`
+never misses; with `include_other=False` the endpoints are real neuron names -/
+theorem edges_endpoints_are_nodes (ns : List Neuron) (io : Bool) (e : Edge) (h : e ∈ connEdges ns io) :
+    e.src ∈ index (neuronNames ns) io ∧ e.tgt ∈ index (neuronNames ns) io :=
+  connEdges_endpoints ns io e h
+
+/-- `__OTHER__` is a node / a matrix label exactly when requested (unless a neuron carries that very name) -/
+theorem other_node_iff (names : List String) (io : Bool) : OTHER ∈ index names io ↔ (io = true ∨ OTHER ∈ names) := by
+  unfold index
+  cases io <;> simp
+
+/-- **The adjacency matrix contains every synapse exactly once**: the sum of all cells is the number of edges
+(no neuron is literally called `__OTHER__`). -/
+theorem adjacency_total (ns : List Neuron) (io : Bool) (ho : OTHER ∉ neuronNames ns) :
+    denseTotal (adjDense (index (neuronNames ns) io) (connEdges ns io)) = (connEdges ns io).length :=
+  denseTotal_adjDense _ _ (index_nodup _ io (nodup_dedup _) ho) (fun e he => connEdges_endpoints ns io e he)
+
+/-- in general (labels repeated in the index): every edge is counted (#rows labelled src) × (#columns labelled tgt) times -/
+theorem adjacency_total_general (idx : List String) (es : List Edge) :
+    denseTotal (adjDense idx es) = (es.map fun e => idx.count e.src * idx.count e.tgt).sum := by
+  rw [adjDense_eq_between]; exact denseTotal_between idx es
+
+/-! ## 10. `__OTHER__` edges, counted -/
+
+/-- With `include_other=True` a presynaptic row `(A, c, a)` of a connector *without any* postsynaptic row yields
+exactly one edge `A → __OTHER__` per such row, and none if the connector has a postsynaptic row; with
+`include_other=False` there is none. -/
+theorem other_target_multiplicity (io : Bool) (rows : List CRow) (h : PreUnique rows) (c a : Int) (A : String) :
+    (edges (build rows) io).count ⟨c, A, OTHER, some a, none⟩
+      = if io && !hasPost rows c then rows.count ⟨A, c, a, 0⟩ else 0 := by
+  rw [(edges_spec io rows h).count_eq]
+  exact count_specEdges_otherTgt io rows c a A
+
+/-- Symmetrically every postsynaptic row `(B, c, b)` of a connector without presynaptic row yields exactly one edge
+`__OTHER__ → B` iff `include_other`. -/
+theorem other_source_multiplicity (io : Bool) (rows : List CRow) (h : PreUnique rows) (c b : Int) (B : String) :
+    (edges (build rows) io).count ⟨c, OTHER, B, none, some b⟩
+      = if io && !hasPre rows c then rows.count ⟨B, c, b, 1⟩ else 0 := by
+  rw [(edges_spec io rows h).count_eq]
+  exact count_specEdges_otherSrc io rows c b B
+
+/-! ## 11. the checker the driver evaluates on navis' *own* adjacency matrix, digraph and multigraph -/
+
+/-- **Soundness and completeness of `viewsOKB`.** It accepts navis' three return values for an edge stream `es` iff:
+all three node sets are the neuron names plus `__OTHER__` iff requested; the matrix cell `(s, t)` is the number of
+stream edges `s → t`; the digraph has exactly one entry per connected pair, whose weight is the length of its
+connectors table and whose table is a permutation of the `(connector, pre node, post node)` triples of the stream
+edges `s → t`; the multigraph's edges are a permutation of the stream. -/
+theorem viewsOKB_sound (names : List String) (io : Bool) (es : List Edge) (v : Views) :
+    viewsOKB names io es v = true ↔ ViewsSpec names io es v :=
+  viewsOKB_iff names io es v
+
+/-- What acceptance means for the property: on navis' own objects, for every ordered pair of nodes, adjacency cell =
+digraph weight = number of parallel multigraph edges = number of stream edges, and the digraph's connectors table and
+the multigraph's parallel edges carry the same multiset of (connector id, pre node, post node). -/
+theorem checked_views_agree (names : List String) (io : Bool) (es : List Edge) (v : Views)
+    (h : viewsOKB names io es v = true) (s t : String) (hs : s ∈ index names io) (ht : t ∈ index names io) :
+    v.adjAt s t = (between es s t).length
+    ∧ v.dgWeight s t = v.adjAt s t
+    ∧ (v.mgBetween s t).length = v.adjAt s t
+    ∧ (v.dgConns s t).Perm (v.mgBetween s t) := by
+  have hs' := (viewsOKB_sound names io es v).mp h
+  have h1 := spec_adj names io es v hs' s t hs ht
+  have h2 := spec_dg names io es v hs' s t
+  have h3 := spec_mg names io es v hs' s t
+  refine ⟨h1, by rw [h2.1, h1], by rw [h3.length_eq, List.length_map, h1], h2.2.trans h3.symm⟩
+
+/-- The model's own three views pass the checker for every stream (so an implementation that agrees with the model
+is never rejected). -/
+theorem model_views_accepted (names : List String) (io : Bool) (es : List Edge) :
+    viewsOKB names io es (modelViews names io es) = true :=
+  (viewsOKB_sound names io es _).mpr (modelViews_spec names io es)
+
+/-! ## 12. `network2nx(to_adjacency(...), threshold)` is a fourth view -/
+
+/-- The graph `network2nx` builds from the adjacency matrix has the edge `s → t` iff both are labels of the matrix and
+the cell passes `>= threshold` (every cell, zeros included, when `threshold=None`), and its weight is the cell, i.e.
+the number of stream edges `s → t`. -/
+theorem network2nx_weight (th : Option Nat) (names : List String) (io : Bool) (es : List Edge)
+    (hn : (index names io).Nodup) (s t : String) :
+    n2nxWeight th (index names io) (adjDense (index names io) es) s t
+      = if s ∈ index names io ∧ t ∈ index names io ∧ passTh th (adjCell es s t) = true
+        then some (adjCell es s t) else none := by
+  rw [adjDense_eq]
+  exact n2nxWeight_cellsOf th _ hn _ s t
+
+/-! ## 13. the aggregations of `group_matrix` -/
+
+/-- `MIN` (`MAX`) of a non-empty group is a member of the group that bounds all members -/
+theorem agg_min_spec (x : Rat) (t : List Rat) : agg .min (x :: t) ∈ x :: t ∧ ∀ y ∈ x :: t, agg .min (x :: t) ≤ y := by
+  refine ⟨foldl_min_mem x t, ?_⟩
+  intro y hy
+  rcases List.mem_cons.mp hy with rfl | hy
+  · exact (foldl_min_le y t).1
+  · exact (foldl_min_le x t).2 y hy
+
+theorem agg_max_spec (x : Rat) (t : List Rat) : agg .max (x :: t) ∈ x :: t ∧ ∀ y ∈ x :: t, y ≤ agg .max (x :: t) := by
+  refine ⟨foldl_max_mem x t, ?_⟩
+  intro y hy
+  rcases List.mem_cons.mp hy with rfl | hy
+  · exact (foldl_max_ge y t).1
+  · exact (foldl_max_ge x t).2 y hy
+
+/-- `AVERAGE` × group size = `SUM` for a non-empty group -/
+theorem agg_avg_spec (l : List Rat) (h : l ≠ []) : agg .avg l * (l.length : Rat) = agg .sum l := by
+  have hne : ((l.length : Nat) : Rat) ≠ 0 := by
+    intro hh
+    have := congrArg Rat.num hh
+    simp at this
+    exact h this
+  exact Rat.div_mul_cancel hne
+
+/-- a row grouping by `SUM` conserves every column total of the kept rows (marginals, not only the grand total) -/
+theorem group_rows_conserve_column_totals (g : List (String × String)) (drop : Bool) (M : LMat) (c : String) :
+    rsum ((groupRows .sum g drop M).rows.map fun r => (groupRows .sum g drop M).val r c)
+      = rsum ((keptRows g drop M.rows).map fun r => M.val r c) :=
+  colsum_groupRows_sum g drop M c
+
+/-- the run-time checker for the totals of navis' own grouped matrix decides exactly the conservation clause … -/
+theorem groupTotalsOKB_sound (rg cg : Groups) (drop : Bool) (M G : LMat) :
+    groupTotalsOKB rg cg drop M G = true ↔ total G = keptTotal rg cg drop M := by
+  unfold groupTotalsOKB; exact decide_eq_true_iff
+
+/-- … and the model's own `SUM` result always passes it (all groupings, both formats, with and without `drop_ungrouped`). -/
+theorem model_group_totals_accepted (rg cg : Groups) (drop : Bool) (M : LMat) :
+    groupTotalsOKB rg cg drop M (groupMatrix .sum rg cg drop M) = true := by
+  rw [groupTotalsOKB_sound]
+  unfold keptTotal
+  by_cases h : (rg.isEmpty && cg.isEmpty) = true
+  · simp only [h, if_true]; unfold groupMatrix; simp [h]
+  · have h' : (rg.isEmpty && cg.isEmpty) = false := by simpa using h
+    simp only [h', Bool.false_eq_true, if_false]
+    exact group_sum_dropped rg cg drop M h'
+
+/-- Conservation is a property of `SUM` only: the other three methods change the total already on a 2 × 1 matrix. -/
+theorem only_sum_conserves_witness :
+    let M : LMat := ⟨["a", "b"], ["x"], fun r _ => if r = "a" then 1 else 3⟩
+    let g : Groups := .byNeuron [("a", "g"), ("b", "g")]
+    total M = 4 ∧ total (groupMatrix .sum g (.byNeuron []) false M) = 4
+    ∧ total (groupMatrix .avg g (.byNeuron []) false M) = 2
+    ∧ total (groupMatrix .min g (.byNeuron []) false M) = 1
+    ∧ total (groupMatrix .max g (.byNeuron []) false M) = 3 := by
+  decide +kernel
+
+/-! ## 14. non-vacuity of the new statements -/
+
+def sampleNeurons : List Neuron :=
+  [⟨"A", some [(1, 10, 0), (2, 11, 0), (3, 12, 0), (2, 13, 1)]⟩, ⟨"B", some [(1, 20, 1), (2, 21, 1), (2, 21, 1), (4, 22, 1), (9, 23, 2)]⟩,
+   ⟨"C", some [(2, 30, 1)]⟩, ⟨"D", none⟩, ⟨"A", some []⟩]
+
+example : flatRows sampleNeurons = sampleRows := by decide
+example : neuronNames sampleNeurons = ["A", "B", "C", "D"] := by decide
+example : OTHER ∉ neuronNames sampleNeurons := by decide
+example : adjDense (index (neuronNames sampleNeurons) true) (connEdges sampleNeurons true)
+    = [[1, 3, 1, 0, 1], [0, 0, 0, 0, 0], [0, 0, 0, 0, 0], [0, 0, 0, 0, 0], [0, 1, 0, 0, 0]] := by decide
+example : denseTotal (adjDense (index (neuronNames sampleNeurons) true) (connEdges sampleNeurons true)) = 7 := by decide
+example : (edges (build sampleRows) true).count ⟨3, "A", OTHER, some 12, none⟩ = 1 := by decide
+example : (edges (build sampleRows) true).count ⟨4, OTHER, "B", none, some 22⟩ = 1 := by decide
+example : viewsOKB (neuronNames sampleNeurons) true (connEdges sampleNeurons true).reverse
+    (modelViews (neuronNames sampleNeurons) true (connEdges sampleNeurons true)) = true := by decide
+/-- a digraph that merged the two parallel `A → B` synapses of connector 2 is rejected -/
+example : viewsOKB ["A", "B"] false [⟨2, "A", "B", some 11, some 21⟩, ⟨2, "A", "B", some 11, some 21⟩]
+    { index := ["A", "B"], adj := [[0, 2], [0, 0]], dgNodes := ["A", "B"], dg := [(("A", "B"), 1, [(2, some 11, some 21)])],
+      mgNodes := ["A", "B"], mg := [(("A", "B"), (2, some 11, some 21)), (("A", "B"), (2, some 11, some 21))] } = false := by decide
+example : n2nxWeight (some 2) ["A", "B"] [[0, 3], [1, 0]] "A" "B" = some 3
+    ∧ n2nxWeight (some 2) ["A", "B"] [[0, 3], [1, 0]] "B" "A" = none
+    ∧ n2nxWeight none ["A", "B"] [[0, 3], [1, 0]] "A" "A" = some 0 := by decide
+example : lastPreOnly witnessRows = [⟨"B", 5, 2, 0⟩, ⟨"C", 5, 3, 1⟩] := by decide
+example : addRowT {} ⟨"A", 1, 2, .str "pre"⟩ = ({} : Maps) := rfl
+example : (addRowT {} ⟨"A", 1, 2, .bool true⟩).outputs = [(1, [("A", 2)])] := by decide
 
 end Navis.Props.C20
